@@ -1,6 +1,7 @@
 package c04deque
 
 import (
+	"math"
 	"fmt"
 	"testing"
 	"time"
@@ -71,7 +72,10 @@ func genOp(t *rapid.T) Op {
 			o.A = rapid.IntRange(2, 100).Draw(t, "n")
 		}
 	case "Shrink":
-		switch rapid.IntRange(0, 6).Draw(t, "shrinkclass") {
+		switch rapid.IntRange(0, 7).Draw(t, "shrinkclass") {
+		case 7:
+			// "keep any amount of spare room": a legal no-op, also at the far end of the int range
+			o.A = rapid.SampledFrom([]int{math.MaxInt, math.MaxInt - 1, math.MaxInt / 2, math.MinInt}).Draw(t, "huge")
 		case 0:
 			o.A = -1
 		case 1:
